@@ -63,6 +63,13 @@ type Exec struct {
 	useContracts bool
 	specAxioms []*Term
 	mkstrSeen map[string]bool
+	zarrSeen map[string]bool
+	heapReads []heapRead
+	rootFrame *Frame
+	namedFuns map[string]*namedFun
+	perm []*Term // facts that hold unconditionally and must survive roll-backs (literal definitions, ...)
+	calledCells map[string]*Cell
+	retCells map[string]*Cell
 	entryFacts []*Term
 	rootArgs []*Value
 	lateFacts []*Term
@@ -79,8 +86,8 @@ type iterInfo struct {
 func NewExec(prog *ssa.Program, db *SpecDB, fset *token.FileSet) *Exec {
 	return &Exec{ctx: NewCtx(), prog: prog, db: db, fset: fset, heapSort: map[string]*Sort{}, written: map[string]bool{}, cellsW: map[*Cell]bool{},
 		strLits: map[string]*Term{}, typeTags: map[string]int{}, tagTypes: map[int]types.Type{}, fnRefs: map[string]*Term{}, fnByRef: map[string]*ssa.Function{},
-		nameCnt: map[string]int{}, trusted: map[string]bool{}, unmod: map[string]bool{}, axiomsOn: map[string]bool{}, safety: true, maxDepth: 8,
-		closures: map[string]*Value{}, repoPkgs: map[string]bool{}, mkstrSeen: map[string]bool{}}
+		nameCnt: map[string]int{}, trusted: map[string]bool{}, unmod: map[string]bool{}, axiomsOn: map[string]bool{}, safety: true, maxDepth: 8, useContracts: true,
+		closures: map[string]*Value{}, repoPkgs: map[string]bool{}, mkstrSeen: map[string]bool{}, zarrSeen: map[string]bool{}, namedFuns: map[string]*namedFun{}}
 }
 
 type Frame struct {
@@ -189,16 +196,16 @@ func (x *Exec) strLit(s string) *Term {
 	name := fmt.Sprintf("str!%d_%s", len(x.strLits), sanitize(trunc(s, 16)))
 	t := x.ctx.Const(name, StrSort)
 	x.strLits[s] = t
-	x.facts = append(x.facts, Eq(x.slen(t), IntLit(int64(len(s)))))
+	x.perm = append(x.perm, Eq(x.slen(t), IntLit(int64(len(s)))))
 	if len(s) <= 80 {
 		for i := 0; i < len(s); i++ {
-			x.facts = append(x.facts, Eq(x.sat(t, IntLit(int64(i))), IntLit(int64(s[i]))))
+			x.perm = append(x.perm, Eq(x.sat(t, IntLit(int64(i))), IntLit(int64(s[i]))))
 		}
 	}
 	// distinctness from earlier literals
 	for o, ot := range x.strLits {
 		if o != s {
-			x.facts = append(x.facts, Neq(t, ot))
+			x.perm = append(x.perm, Neq(t, ot))
 		}
 	}
 	return t
@@ -228,7 +235,7 @@ func (x *Exec) mkstr(arr, off, n *Term) *Term {
 	if !x.mkstrSeen[t.String()] {
 		x.mkstrSeen[t.String()] = true
 		i := BoundVar("i", IntSort)
-		x.facts = append(x.facts,
+		x.perm = append(x.perm,
 			Implies(Ge(n, IntLit(0)), Eq(x.slen(t), n)),
 			Forall([]*Term{i}, Implies(And(Le(IntLit(0), i), Lt(i, n)), Eq(x.sat(t, i), Select(arr, Add(off, i)))), []*Term{x.sat(t, i)}))
 	}
@@ -240,6 +247,46 @@ func (x *Exec) sconcat(a, b *Term) *Term {
 }
 
 func (x *Exec) useAxioms(group string) { x.axiomsOn[group] = true }
+
+// litContent returns the content of a string-literal term.
+func (x *Exec) litContent(t *Term) (string, bool) {
+	if t.Op != "const" {
+		return "", false
+	}
+	for c, lt := range x.strLits {
+		if lt.Name == t.Name {
+			return c, true
+		}
+	}
+	return "", false
+}
+
+// hasPrefixTerm: for a literal prefix the definition is expanded byte-wise (ground, usable under
+// binders); otherwise an uninterpreted predicate with the substr-based definition axiom.
+func (x *Exec) hasPrefixTerm(s, p *Term) *Term {
+	if c, ok := x.litContent(p); ok && len(c) <= 40 {
+		cs := []*Term{Ge(x.slen(s), IntLit(int64(len(c))))}
+		for i := 0; i < len(c); i++ {
+			cs = append(cs, Eq(x.sat(s, IntLit(int64(i))), IntLit(int64(c[i]))))
+		}
+		return And(cs...)
+	}
+	x.useAxioms("prefix")
+	return x.ctx.App("hasPrefix", BoolSort, s, p)
+}
+
+func (x *Exec) hasSuffixTerm(s, p *Term) *Term {
+	if c, ok := x.litContent(p); ok && len(c) <= 40 {
+		n := int64(len(c))
+		cs := []*Term{Ge(x.slen(s), IntLit(n))}
+		for i := 0; i < len(c); i++ {
+			cs = append(cs, Eq(x.sat(s, Add(Sub(x.slen(s), IntLit(n)), IntLit(int64(i)))), IntLit(int64(c[i]))))
+		}
+		return And(cs...)
+	}
+	x.useAxioms("prefix")
+	return x.ctx.App("hasSuffix", BoolSort, s, p)
+}
 
 // ---- type tags / function identities ----
 
@@ -261,9 +308,9 @@ func (x *Exec) fnRef(fn *ssa.Function) *Term {
 	}
 	t := x.ctx.Const("fn$"+sanitize(k), RefSort)
 	for _, o := range x.fnRefs {
-		x.facts = append(x.facts, Neq(t, o))
+		x.perm = append(x.perm, Neq(t, o))
 	}
-	x.facts = append(x.facts, Neq(t, x.null()))
+	x.perm = append(x.perm, Neq(t, x.null()))
 	x.fnRefs[k] = t
 	x.fnByRef[t.Name] = fn
 	return t
@@ -504,6 +551,24 @@ func (x *Exec) execFunction(fn *ssa.Function, st *State, args, bind []*Value, co
 		fr.regs[p] = args[i]
 	}
 	fr.order, fr.loops = x.computeLoops(fn)
+	if isRoot {
+		x.rootFrame = fr
+		// ghost "called" flags for callees mentioned as called(F) in the contract
+		x.calledCells = map[string]*Cell{}
+		if contract != nil {
+			for _, n := range calledNames(contract, "called") {
+				x.cellID++
+				c := &Cell{Name: "called$" + n, T: tBool, ID: x.cellID}
+				x.calledCells[n] = c
+				st.cells[c] = scalar(tBool, False)
+			}
+			x.retCells = map[string]*Cell{}
+			for _, n := range calledNames(contract, "ret") {
+				x.cellID++
+				x.retCells[n] = &Cell{Name: "ret$" + n, ID: x.cellID}
+			}
+		}
+	}
 	x.stack = append(x.stack, fn)
 	defer func() { x.stack = x.stack[:len(x.stack)-1] }()
 	x.runBlocks(fr, fr.order, nil, nil, st)
@@ -855,4 +920,36 @@ func (x *Exec) instrText(in ssa.Instruction) string {
 		return v.Name() + " = " + in.String()
 	}
 	return in.String()
+}
+
+// calledNames lists the callees F used as called(F) in a contract's ensures clauses.
+func calledNames(c *Contract, fname string) []string {
+	seen := map[string]bool{}
+	var out []string
+	var walk func(e *Expr)
+	walk = func(e *Expr) {
+		if e == nil {
+			return
+		}
+		if e.Op == "call" && e.Args[0].Op == "ident" && e.Args[0].Name == fname && len(e.Args) >= 2 {
+			n := exprTypeName(e.Args[1])
+			if e.Args[1].Op == "str" {
+				n = e.Args[1].Name
+			}
+			if !seen[n] {
+				seen[n] = true
+				out = append(out, n)
+			}
+		}
+		for _, a := range e.Args {
+			walk(a)
+		}
+	}
+	for _, cl := range c.Ensures {
+		walk(cl.E)
+	}
+	for _, cc := range c.Calls {
+		walk(cc.C.E)
+	}
+	return out
 }
